@@ -1161,6 +1161,8 @@ htp_status_t htp_connp_RES_FINALIZE(htp_connp_t *connp) {
     }
     size_t bytes_left;
     unsigned char * data;
+    // Bytes of the probed line that were buffered by earlier calls.
+    size_t buffered = (connp->out_buf != NULL) ? connp->out_buf_size : 0;
 
     if (htp_connp_res_consolidate_data(connp, &data, &bytes_left) != HTP_OK) {
         return HTP_ERROR;
@@ -1190,6 +1192,9 @@ htp_status_t htp_connp_RES_FINALIZE(htp_connp_t *connp) {
     if (connp->out_current_read_offset < connp->out_current_consume_offset) {
         connp->out_current_consume_offset=connp->out_current_read_offset;
     }
+    // RES_LINE is going to read the bytes of the current chunk again;
+    // keep only the earlier ones in the buffer.
+    if (connp->out_buf != NULL) connp->out_buf_size = buffered;
     return htp_tx_state_response_complete_ex(connp->out_tx, 0 /* not hybrid mode */);
 }
 
